@@ -4,6 +4,7 @@ import MoSql.Gen.FmtTable
 import MoSql.Script
 import MoSql.Query
 import MoSql.Lex
+import MoSql.Window
 /-
 Line-protocol driver: one JSON request per line on stdin, one JSON answer per line on stdout.
 Imports the model files and Lean's JSON library only (no Mathlib), so it is also built as the
@@ -268,6 +269,45 @@ def handleLex (req : Json) : Except String String := do
     | none => err "not a number"
   | w => err ("unknown lex request " ++ w)
 
+def toBoundJ : Json → Except String Window.Bound
+  | .str "current" => pure .current
+  | .str "up" => pure .unboundedPreceding
+  | .str "uf" => pure .unboundedFollowing
+  | .arr #[.str "p", .num n] => pure (.preceding n.mantissa.toNat)
+  | .arr #[.str "f", .num n] => pure (.following n.mantissa.toNat)
+  | _ => err "bad bound"
+
+def frameJ (f : Window.Frame) : String :=
+  let part := fun (k : String) (v : Option Int) => match v with
+    | some i => ["\"" ++ k ++ "\":{\"$i\":\"" ++ toString i ++ "\"}"]
+    | none => []
+  "{" ++ ",".intercalate (part "max" f.max ++ part "min" f.min) ++ "}"
+
+def boundText : Window.Bound → String
+  | .current => "CURRENT ROW"
+  | .unboundedPreceding => "UNBOUNDED PRECEDING"
+  | .unboundedFollowing => "UNBOUNDED FOLLOWING"
+  | .preceding n => toString n ++ " PRECEDING"
+  | .following n => toString n ++ " FOLLOWING"
+
+def synText : Window.FrameSyn → String
+  | .single b => "ROWS " ++ boundText b
+  | .between a b => "ROWS BETWEEN " ++ boundText a ++ " AND " ++ boundText b
+
+def handleFrame (req : Json) : Except String String := do
+  let fj ← req.getObjVal? "f"
+  let f ← match fj with
+    | .arr #[.str "single", b] => do pure (Window.FrameSyn.single (← toBoundJ b))
+    | .arr #[.str "between", a, b] => do pure (Window.FrameSyn.between (← toBoundJ a) (← toBoundJ b))
+    | _ => err "bad frame"
+  let parsed := Window.parseFrame f
+  let fmt := match Window.fmtFrame parsed with
+    | some (some g) => jstr (synText g)
+    | some none => "\"\""
+    | none => "{\"$err\":\"TypeError\"}"
+  pure ("{\"model\":" ++ frameJ parsed ++ ",\"spec\":" ++ frameJ (Window.specFrame f) ++
+    ",\"valid\":" ++ toString (Window.valid f) ++ ",\"fmt\":" ++ fmt ++ "}")
+
 def handleAccumulate (req : Json) : Except String String := do
   let outs ← req.getObjVal? "outs"
   match outs with
@@ -289,6 +329,7 @@ def handle (line : String) : String :=
       | .ok "accumulate" => handleAccumulate req
       | .ok "union" => handleUnion req
       | .ok "lex" => handleLex req
+      | .ok "frame" => handleFrame req
       | .ok "fmtTable" => pure handleFmtTable
       | .ok "ping" => pure "{\"pong\":true}"
       | .ok o => err ("unknown op " ++ o)
